@@ -7,9 +7,9 @@
 //! postcard, decompress it with the REAL `decompress_with` against the same context".
 //! States = distinct context contents (the full context is the state key, nothing is
 //! hidden), explored breadth-first from the empty context through ALL 12 pool
-//! transactions in every state, depth 4 (quick: every ordered history of length ≤ 4,
-//! 1 + 12 + 144 + 1,728 + 20,736 histories) / depth 12 (thorough; the frontier becomes empty
-//! at depth 9, i.e. the COMPLETE reachable context set of the pool is explored). Histories that reach
+//! transactions in every state, depth 5 (quick: every ordered history of length ≤ 5,
+//! 271,453 histories) / depth 12 (thorough; the frontier becomes empty around depth 10,
+//! i.e. the COMPLETE reachable context set of the pool is explored). Histories that reach
 //! the same context are merged (the transition function is deterministic in
 //! (context, tx)); states and executed transitions are counted as such.
 //!
@@ -23,8 +23,12 @@
 //! Pool: 12 hand-built transactions — 4 Script, 2 Create, 2 Upgrade (both purposes),
 //! Upload, Blob, 2 Mint — covering all 7 input kinds and all 5 output kinds, sharing two
 //! addresses, two asset ids (+ the zero ones), one contract id, two predicates and two
-//! scripts, so registry keys are reused inside and across transactions, with non-default
-//! values in every `compress(skip)` field.
+//! scripts, so registry keys are reused inside and across transactions. A start-up
+//! self-check (`pool_self_check`, machinery error when violated) enumerates every field
+//! path of the pool's serde trees — bodies, enum-variant payloads, inputs, outputs, tx
+//! pointers, witness / output indices, policies — and demands a NON-default value in at
+//! least one pool transaction (witness lists put signatures first, payloads after, so the
+//! stored witness indices are non-zero), so no field can be dropped to its default unseen.
 //!
 //! Oracle per transition (from the statement; chain id fixed):
 //!  1. compression, postcard(compressed) round trip (equal value) and decompression succeed;
@@ -413,16 +417,16 @@ impl DecompressibleBy<RegCtx> for Mint {
 
 const POOL_NAMES: [&str; 12] = [
     "Script#0 (empty)",
-    "Script#1 (S1; CoinSigned U1 + Contract C1; Coin, Contract, Change)",
+    "Script#1 (S1; Contract C1 + CoinSigned U1 (witness 1); Coin, Contract, Change)",
     "Script#2 (S1; CoinPredicate U2/P1 + MessageCoinSigned; Variable, Change, Coin to zero address/zero asset)",
     "Script#3 (S2; MessageDataPredicate P1 + MessageDataSigned; Coin)",
     "Create#4 (CoinSigned U1; ContractCreated C1, Change)",
     "Create#5 (minimal; ContractCreated zero contract)",
-    "Upgrade#6 (ConsensusParameters; CoinPredicate U4/P2; Coin)",
+    "Upgrade#6 (ConsensusParameters, payload witness 2; CoinSigned U3 + CoinPredicate U4/P2; Coin)",
     "Upgrade#7 (StateTransition; MessageCoinPredicate P2; Change to zero address)",
-    "Upload#8 (CoinSigned U3 zero asset; Change)",
-    "Blob#9 (CoinPredicate U2/P1; Change)",
-    "Mint#10 (contract C1, asset X1, tx pointer (5,3))",
+    "Upload#8 (payload witness 1; CoinSigned U3 zero asset; Change)",
+    "Blob#9 (payload witness 1, all six policies; CoinPredicate U2/P1 + MessageCoinSigned + CoinSigned U1; Change)",
+    "Mint#10 (contract C1, asset X1, tx pointer (5,3), output input_index 2)",
     "Mint#11 (all default)",
 ];
 
@@ -445,32 +449,35 @@ fn pool() -> Vec<Transaction> {
     // spendable things, each with ONE consistent set of chain data
     let u1 = |wi: u16| Input::coin_signed(utxo(0x10, 1), a1, 100, x1, ptr(9, 1), wi);
     let u2 = |gas: u64, pd: usize| Input::coin_predicate(utxo(0x11, 2), a2, 200, x2, ptr(9, 2), gas, p1.clone(), bytes_of(pd, 6));
-    let u3 = |wi: u16| Input::coin_signed(utxo(0x12, 0), a1, 300, xz, ptr(8, 0), wi);
+    let u3 = |wi: u16| Input::coin_signed(utxo(0x12, 5), a1, 300, xz, ptr(8, 6), wi);
     let u4 = Input::coin_predicate(utxo(0x13, 7), a2, 400, xz, ptr(7, 7), 66, p2.clone(), vec![]);
-    let n1 = Input::message_coin_signed(a1, a2, 11, Nonce::from(id32(1, 0x20)), 0);
+    let n1 = |wi: u16| Input::message_coin_signed(a1, a2, 11, Nonce::from(id32(1, 0x20)), wi);
     let n2 = Input::message_coin_predicate(a2, a1, 12, Nonce::from(id32(1, 0x21)), 55, p2.clone(), bytes_of(2, 7));
     let n3 = Input::message_data_signed(a1, a1, 13, Nonce::from(id32(1, 0x22)), 1, bytes_of(6, 8));
     let n4 = Input::message_data_predicate(a2, a2, 14, Nonce::from(id32(1, 0x23)), 44, bytes_of(9, 9), p1.clone(), bytes_of(1, 10));
     let in_contract = Input::contract(utxo(0x14, 3), b32(0x30), b32(0x31), ptr(6, 6), c1);
+    let sig = |k: u8| Witness::from(bytes_of(64, k));
 
+    // Witness lists: signature witnesses first, payload witnesses after them, so that the
+    // witness indices stored in bodies / inputs are non-zero wherever the format has one.
     let mut t1 = Transaction::script(
         1000,
         s1.clone(),
         bytes_of(3, 5),
         Policies::new().with_tip(1).with_max_fee(5),
-        vec![u1(0), in_contract],
+        vec![in_contract, u1(1)],
         vec![Output::coin(a2, 10, x1), Output::contract(1, b32(0x32), b32(0x33)), Output::change(a1, 7, x1)],
-        vec![Witness::from(bytes_of(64, 11))],
+        vec![sig(11), sig(21)],
     );
     *field::ReceiptsRoot::receipts_root_mut(&mut t1) = b32(0x34);
     let mut t2 = Transaction::script(
         2000,
         s1.clone(),
         vec![],
-        Policies::new().with_max_fee(9).with_owner(0).with_expiration(100u32.into()),
-        vec![u2(33, 3), n1],
+        Policies::new().with_max_fee(9).with_owner(1).with_expiration(100u32.into()),
+        vec![u2(33, 3), n1(1)],
         vec![Output::variable(a1, 5, x2), Output::change(a2, 8, x2), Output::coin(az, 1, xz)],
-        vec![Witness::from(bytes_of(7, 12))],
+        vec![Witness::from(bytes_of(7, 12)), sig(22)],
     );
     *field::ReceiptsRoot::receipts_root_mut(&mut t2) = b32(0x35);
     let mut t3 = Transaction::script(
@@ -490,7 +497,7 @@ fn pool() -> Vec<Transaction> {
         vec![StorageSlot::new(b32(0x37), b32(0x38)), StorageSlot::new(b32(0x39), b32(0x3a))],
         vec![u1(0)],
         vec![Output::contract_created(c1, b32(0x3b)), Output::change(a1, 9, x1)],
-        vec![Witness::from(bytes_of(3, 15)), Witness::from(bytes_of(40, 16))],
+        vec![sig(15), Witness::from(bytes_of(40, 16))],
     );
     let t5 = Transaction::create(
         0,
@@ -502,11 +509,11 @@ fn pool() -> Vec<Transaction> {
         vec![],
     );
     let t6 = Transaction::upgrade(
-        UpgradePurpose::ConsensusParameters { witness_index: 0, checksum: b32(0x3c) },
-        Policies::new().with_max_fee(3).with_owner(0),
-        vec![u4],
+        UpgradePurpose::ConsensusParameters { witness_index: 2, checksum: b32(0x3c) },
+        Policies::new().with_max_fee(3).with_owner(1).with_expiration(u32::MAX.into()),
+        vec![u3(1), u4],
         vec![Output::coin(a2, 2, xz)],
-        vec![Witness::from(bytes_of(33, 17))],
+        vec![Witness::from(bytes_of(3, 23)), sig(24), Witness::from(bytes_of(33, 17))],
     );
     let t7 = Transaction::upgrade(
         UpgradePurpose::StateTransition { root: b32(0x3d) },
@@ -518,22 +525,29 @@ fn pool() -> Vec<Transaction> {
     let t8 = Transaction::upload(
         UploadBody {
             root: b32(0x3e),
-            witness_index: 0,
-            subsection_index: 1,
+            witness_index: 1,
+            subsection_index: 2,
             subsections_number: 3,
             proof_set: vec![b32(0x3f), b32(0x40)],
         },
         Policies::new().with_max_fee(6),
-        vec![u3(1)],
+        vec![u3(0)],
         vec![Output::change(a1, 1, xz)],
-        vec![Witness::from(bytes_of(17, 18)), Witness::from(bytes_of(2, 19))],
+        vec![sig(19), Witness::from(bytes_of(17, 18))],
     );
     let t9 = Transaction::blob(
-        BlobBody { id: BlobId::from(id32(1, 0x41)), witness_index: 0 },
-        Policies::new().with_max_fee(7).with_expiration(u32::MAX.into()),
-        vec![u2(34, 0)],
+        BlobBody { id: BlobId::from(id32(1, 0x41)), witness_index: 1 },
+        // all six policies with pairwise distinct values (maturity != expiration)
+        Policies::new()
+            .with_tip(11)
+            .with_witness_limit(12)
+            .with_maturity(13u32.into())
+            .with_max_fee(14)
+            .with_expiration(15u32.into())
+            .with_owner(2),
+        vec![u2(34, 0), n1(0), u1(0)],
         vec![Output::change(a2, 4, x2)],
-        vec![Witness::from(bytes_of(21, 20))],
+        vec![sig(25), Witness::from(bytes_of(21, 20))],
     );
     let t10 = Transaction::mint(
         ptr(5, 3),
@@ -541,13 +555,13 @@ fn pool() -> Vec<Transaction> {
             utxo_id: utxo(0x42, 4),
             balance_root: b32(0x43),
             state_root: b32(0x44),
-            tx_pointer: ptr(4, 4),
+            tx_pointer: ptr(4, 8),
             contract_id: c1,
         },
-        fuel_tx::output::contract::Contract { input_index: 0, balance_root: b32(0x45), state_root: b32(0x46) },
+        fuel_tx::output::contract::Contract { input_index: 2, balance_root: b32(0x45), state_root: b32(0x46) },
         77,
         x1,
-        2,
+        6,
     );
     let t11 = Transaction::mint(TxPointer::default(), Default::default(), Default::default(), 0, xz, 0);
     vec![
@@ -564,6 +578,94 @@ fn pool() -> Vec<Transaction> {
         t10.into(),
         t11.into(),
     ]
+}
+
+// ------------------------------------------------------------------ pool self-check
+
+/// Every field path of the pool (taken from the serde_json tree of each transaction, list
+/// positions collapsed to `[]`, the kind-independent policies / inputs / outputs / witnesses
+/// collapsed over the transaction kinds, so enum-variant payloads, bodies, inputs, outputs, tx
+/// pointers, output indices … are all enumerated without naming them) must hold a
+/// NON-default value in at least one pool transaction; every transaction kind, input kind,
+/// output kind, upgrade purpose and policy type must occur. Otherwise a field silently
+/// dropped by (de)compression could come back as its default unnoticed: machinery error.
+fn pool_self_check(pool: &[Transaction]) -> Result<usize, String> {
+    fn walk(v: &Value, path: &str, seen: &mut BTreeMap<String, bool>) {
+        let mut mark = |p: &str, non_default: bool| {
+            let e = seen.entry(p.to_string()).or_insert(false);
+            *e |= non_default;
+        };
+        match v {
+            Value::Null => {}
+            Value::Bool(b) => mark(path, *b),
+            Value::Number(n) => mark(path, n.as_u64() != Some(0)),
+            Value::String(s) => mark(path, !(s.is_empty() || s.bytes().all(|c| c == b'0'))),
+            Value::Array(a) => {
+                mark(path, !a.is_empty());
+                for c in a {
+                    walk(c, &format!("{path}/[]"), seen);
+                }
+            }
+            Value::Object(m) => {
+                for (k, c) in m {
+                    walk(c, &format!("{path}/{k}"), seen);
+                }
+            }
+        }
+    }
+    let mut seen = BTreeMap::new();
+    for tx in pool {
+        let j = serde_json::to_value(tx).map_err(|e| format!("pool transaction does not serialize: {e}"))?;
+        // externally tagged: {"<Kind>": {body, policies, inputs, outputs, witnesses}}; the
+        // input / output / witness / policy types do not depend on the transaction kind
+        match &j {
+            Value::Object(m) if m.len() == 1 => {
+                let (kind, inner) = m.iter().next().expect("one variant");
+                match inner {
+                    Value::Object(fields) => {
+                        for (k, c) in fields {
+                            let shared = ["policies", "inputs", "outputs", "witnesses"].contains(&k.as_str());
+                            let prefix = if shared { format!("/*/{k}") } else { format!("/{kind}/{k}") };
+                            walk(c, &prefix, &mut seen);
+                        }
+                    }
+                    other => walk(other, &format!("/{kind}"), &mut seen),
+                }
+            }
+            other => walk(other, "", &mut seen),
+        }
+    }
+    let mut problems: Vec<String> = seen.iter().filter(|(_, nd)| !**nd).map(|(p, _)| format!("always default: {p}")).collect();
+    let mut required: Vec<String> = ["Script", "Create", "Mint", "Upgrade", "Upload", "Blob"].iter().map(|k| format!("/{k}/")).collect();
+    required.extend(txcorpus::INPUT_KINDS.iter().map(|k| format!("/inputs/[]/{k}/")));
+    required.extend(txcorpus::OUTPUT_KINDS.iter().map(|k| format!("/outputs/[]/{k}")));
+    required.extend(txcorpus::UPGRADE_PURPOSE_KINDS.iter().map(|k| format!("/purpose/{k}/")));
+    for r in required {
+        if !seen.keys().any(|p| p.contains(&r)) {
+            problems.push(format!("never occurs: {r}"));
+        }
+    }
+    for t in txcorpus::POLICY_TYPES {
+        let ok = pool.iter().any(|tx| {
+            let p = match tx {
+                Transaction::Script(x) => Some(*field::Policies::policies(x)),
+                Transaction::Create(x) => Some(*field::Policies::policies(x)),
+                Transaction::Upgrade(x) => Some(*field::Policies::policies(x)),
+                Transaction::Upload(x) => Some(*field::Policies::policies(x)),
+                Transaction::Blob(x) => Some(*field::Policies::policies(x)),
+                Transaction::Mint(_) => None,
+            };
+            p.and_then(|p| p.get(t)).map(|v| v != 0).unwrap_or(false)
+        });
+        if !ok {
+            problems.push(format!("policy {t:?} is never set to a non-zero value"));
+        }
+    }
+    if problems.is_empty() {
+        Ok(seen.len())
+    } else {
+        Err(problems.join("; "))
+    }
 }
 
 // ------------------------------------------------------------------ deliberately skipped fields
@@ -1063,7 +1165,7 @@ fn explore(ctx: &Ctx) {
     ctx.rule(
         "breadth-first exploration of the compression context: from every distinct context reached, each of the 12 \
          pool transactions is registered, compressed, postcard-round-tripped and decompressed against that context \
-         (depth 4 quick / up to 12 = until no new context appears, thorough; contexts reached by several histories are merged, the transition is a \
+         (depth 5 quick / up to 12 = until no new context appears, thorough; contexts reached by several histories are merged, the transition is a \
          deterministic function of (context, transaction)); plus RegistryKey::next on all 2^24 keys. A transition \
          is non-trivial when compression, the postcard round trip and decompression all succeeded and produced a \
          transaction; distinct = distinct (context, transaction) pairs (+3 key classes)",
@@ -1082,6 +1184,10 @@ fn explore(ctx: &Ctx) {
         ]),
     );
     let pool = pool();
+    match pool_self_check(&pool) {
+        Ok(n) => ctx.set("pool_self_check", json!({"field_paths": n, "result": "every field path, kind, variant and policy is non-default in at least one pool transaction"})),
+        Err(e) => panic!("C07 pool self-check failed (machinery error, fix the pool): {e}"),
+    }
     let chain = chain_id();
     ctx.set(
         "pool",
